@@ -26,7 +26,7 @@ ASSUMPTIONS = ["FastAggregateVerify with individually valid keys that sum to the
                "Aggregate on 96-byte entries that do not decode: any raised exception is accepted, returned bytes are not"]
 R = params.BLS_R
 E2 = params.BLS_E2
-PERTS = ["extra-identity-key", "key-plus-torsion", "honest", "drop-signer", "dup-signer", "subst-key", "subst-message", "swap-messages", "subset-aggregate", "negated", "plus-torsion", "bitflip",
+PERTS = ["sig-length", "extra-identity-key", "key-plus-torsion", "honest", "drop-signer", "dup-signer", "subst-key", "subst-message", "swap-messages", "subset-aggregate", "negated", "plus-torsion", "bitflip",
          "more-keys", "more-messages", "empty", "empty-infinity", "bad-key", "identity-key", "repeated-message", "repeated-key"]
 
 
@@ -35,7 +35,7 @@ def shards(tier):
 
 
 def required_classes(tier):
-    out = ["av:" + p for p in PERTS if p not in ("identity-key",)] + ["fav:" + p for p in ("key-plus-torsion", "honest", "drop-signer", "dup-signer", "subst-key", "empty", "empty-infinity", "bad-key", "sk-and-r-sk", "negated", "other-message")]
+    out = ["av:" + p for p in PERTS if p not in ("identity-key",)] + ["fav:" + p for p in ("sig-length", "key-plus-torsion", "honest", "drop-signer", "dup-signer", "subst-key", "empty", "empty-infinity", "bad-key", "sk-and-r-sk", "negated", "other-message")]
     out += ["agg:multiplicity", "agg:sum", "agg:permutation", "agg:bracketing", "agg:refuse", "agg:undecodable", "suite:basic", "suite:aug", "suite:pop", "n>=2"]
     return out
 
@@ -150,6 +150,10 @@ def run(rec):
                 z = int.from_bytes(agg, "big") ^ (1 << rng.randrange(0, 381))
                 av(pert, pks, msgs, z.to_bytes(96, "big"))
                 av(pert, pks, msgs, (int.from_bytes(agg, "big") ^ (1 << 765)).to_bytes(96, "big"))
+            elif pert == "sig-length":
+                av(pert, pks, msgs, agg[:95])
+                av(pert, pks, msgs, agg + b"\x00")
+                av(pert, pks, msgs, b"")
             elif pert == "more-keys":
                 av(pert, pks + [pk_x], msgs, agg)
             elif pert == "more-messages":
@@ -208,6 +212,8 @@ def run(rec):
         fav("empty", [], msg, fagg)
         fav("empty-infinity", [], msg, inf_sig)
         fav("negated", pks, msg, Z.enc_g2(E2.neg(Z.dec_g2(fagg))))
+        fav("sig-length", pks, msg, fagg[:95])
+        fav("sig-length", pks, msg, fagg + fagg[:1])
         fav("other-message", pks, msg + b"x", fagg)
         for bad in (Z.enc_g1(None), Z.enc_g1(params.BLS_E1.rand_point(rng))):
             P2 = list(pks); P2[rng.randrange(n)] = bad
